@@ -1,86 +1,27 @@
 #!/usr/bin/env python3
-"""Test the checkers both ways (DESIGN.md 2.6): every mutant in selftest/<id>/*.json must be reported (and the report must
-name the mutated instance), every neutral variant must stay silent.  Mutants are single-file substitutions analysed through
-a clang VFS overlay: /repo is never modified.
+"""Test the checkers both ways (DESIGN.md 2.6): every mutant in selftest/<id>/*.json and every kept seeded change (seeded/*/patch.diff
+whose meta.json names the property in caught_by) must be reported, every neutral variant must stay silent.  Variants are analysed
+through a clang VFS overlay: /repo is never modified.
 
-usage: tools/selftest.py [ids...]"""
+usage: tools/selftest.py [ids...]      (SELFTEST_VERBOSE=1 prints the violations of each variant)"""
 import glob
-import importlib
-import json
 import os
-import shutil
 import sys
-import tempfile
-import traceback
 
 V = os.path.dirname(os.path.dirname(os.path.abspath(__file__)))
 sys.path.insert(0, V)
-from sgcheck import core, ir  # noqa: E402
-
-
-def run_variant(pid, spec, tmpdir):
-    mapping = {}
-    for i, ed in enumerate(spec['edits']):
-        path = os.path.join(ir.REPO, ed['file'])
-        src = mapping.get(path, path)
-        txt = open(src).read()
-        for old, new in ed['subst']:
-            if txt.count(old) != 1:
-                return 'BROKEN', 'substitution source occurs %d times in %s: %r' % (txt.count(old), ed['file'], old[:60])
-            txt = txt.replace(old, new)
-        dst = os.path.join(tmpdir, '%d_%s' % (i, os.path.basename(path)))
-        open(dst, 'w').write(txt)
-        mapping[path] = dst
-    ir.set_overlay(mapping)
-    try:
-        mod = importlib.import_module('sgcheck.props.' + pid)
-        ctx = core.Ctx(pid, 'quick', 0)
-        try:
-            mod.run(ctx)
-        except ir.AnalysisBroken as e:
-            ctx.unrecognised('analysis', str(e))
-        rc = core.finish(ctx, '', write=False)
-        keys = sorted(set(r['key'] for r in ctx.new_violations))
-        if os.environ.get('SELFTEST_VERBOSE'):
-            for r in ctx.new_violations:
-                print('   ', r['key'], '|', r['where'], '|', r['detail'][:400])
-        return rc, keys, ctx.unrec
-    finally:
-        ir.set_overlay({})
+from sgcheck import variants  # noqa: E402
 
 
 def main():
     ids = sys.argv[1:] or sorted(os.path.basename(d) for d in glob.glob(os.path.join(V, 'selftest', 'C*')))
-    bad = 0
-    total = 0
+    bad = total = 0
     for pid in ids:
-        for f in sorted(glob.glob(os.path.join(V, 'selftest', pid, '*.json'))):
-            spec = json.load(open(f))
-            total += 1
-            tmpdir = tempfile.mkdtemp(prefix='sgselftest_')
-            try:
-                res = run_variant(pid, spec, tmpdir)
-            except Exception:
-                traceback.print_exc()
-                res = ('BROKEN', 'exception')
-            finally:
-                shutil.rmtree(tmpdir, ignore_errors=True)
-            name = '%s/%s' % (pid, os.path.basename(f)[:-5])
-            if res[0] == 'BROKEN':
-                print('BROKEN  %s: %s' % (name, res[1]))
-                bad += 1
-                continue
-            rc, keys, unrec = res
-            kind = spec.get('kind', 'mutant')
-            if kind == 'mutant':
-                exp = spec.get('expect_key', '')
-                ok = rc == 1 and any(exp in k for k in keys)
-                print('%s  %s (mutant): rc=%d keys=%s%s' % ('ok    ' if ok else 'MISSED', name, rc, keys[:4], '' if ok else ' expected key containing %r; unrecognised=%s' % (exp, unrec[:2])))
-            else:
-                ok = rc == 0
-                print('%s  %s (%s): rc=%d keys=%s unrec=%s' % ('ok    ' if ok else 'ALARM ', name, kind, rc, keys[:4], unrec[:2]))
-            if not ok:
-                bad += 1
+        lines, ok, fails, na = variants.run_all(pid, verbose=bool(os.environ.get('SELFTEST_VERBOSE')))
+        for l in lines:
+            print(l.replace('N/A   ', 'BROKEN'))
+        total += ok + len(fails) + len(na)
+        bad += len(fails) + len(na)
     print('selftest: %d variant(s), %d failure(s)' % (total, bad))
     return 1 if bad else 0
 
